@@ -305,6 +305,8 @@ def compare(S, exp, ev):
         return mm, diag  # the reader did not see the expected records: nothing more to learn
     if [x.rstrip() for x in exp["lines"]] != [x.rstrip() for x in ev["lines"]]:
         diag.append("other-lines-differ")
+    if S["bonds"] and not exp["dom"]:
+        return mm, diag  # outside Dom_BondIds / Dom_Ids the reader may refuse the serial numbers
     g, x = ev["back"], exp["back"]
     bad = None
     if not g["ok"]:
@@ -321,9 +323,9 @@ def compare(S, exp, ev):
                 break
         if not bad and g["coords"] != x["coords"]:
             bad = "coords"
-        if not bad and len(g["box"]) != len(x["box"]):
+        if not bad and exp["domBox"] and len(g["box"]) != len(x["box"]):
             bad = "box presence"
-        if not bad and x["box"] and (g["box"][0]["len"] != x["box"][0]["len"] or g["box"][0]["ang"] != x["box"][0]["ang"]):
+        if not bad and exp["domBox"] and x["box"] and (g["box"][0]["len"] != x["box"][0]["len"] or g["box"][0]["ang"] != x["box"][0]["ang"]):
             bad = "box"
     if bad:
         mm.append(dict(base, kind="readback", what=bad, expected=x, observed=g))
@@ -596,16 +598,21 @@ def fix_exp(e):
     return e
 
 
-_H36 = re.compile(r'inp = <<"(\w+)", (-?\d+), (-?\d+)>>\s*/\\ out = <<(TRUE|FALSE), (.*?)>>\s*(?=State|\Z)', re.S)
+_H36 = re.compile(r'inp = <<"(\w+)", (-?\d+), (-?\d+)>>\s*/\\ out = <<\s*(TRUE|FALSE),\s*(.*?)>>\s*(?=State|\Z)', re.S)
+
+
+hcases_grp = [0]
 
 
 def load_h36(path):
+    hcases_grp[0] = 0
     with open(path) as f:
         text = f.read()
     cases = []
     for m in _H36.finditer(text):
         kind, w, a, ok, body = m.group(1), int(m.group(2)), int(m.group(3)), m.group(4) == "TRUE", m.group(5)
         if kind == "grp":
+            hcases_grp[0] += 1
             continue
         s = "".join(re.findall(r'"(.)"', body))
         cases.append([kind, w, a, ok, s])
@@ -627,7 +634,7 @@ def run(ctx):
         "Dom_Names: names, chain ids, insertion codes, elements contain no blanks",
         "Dom_Ids: without hybrid-36 the round trip is claimed for serials <= 99999 and residue numbers <= 9999; beyond them the documented wrap-around or a refusal are both accepted",
         "Dom_Element: an empty element is outside the round-trip claim (the reader re-guesses it, with a warning)",
-        "Dom_Box: orthorhombic cells with edge lengths k/16 (exact in float32); triclinic cells are not decided",
+        "Dom_Box: orthorhombic cells with edge lengths exact in float32, no edge shorter than 1/10000 of the sum of the edges (the reader clears such components as numerical noise); triclinic cells are not decided",
         "Dom_BondIds: bonds are read back only for strictly increasing positive serial numbers",
         "numbers are dyadic rationals exactly representable in float32 (coordinates) / float64 (B-factor, occupancy); -0.0 is not generated",
         "residue templates and link types are those of the synthetic CCD fixtures/ccd/components_synth.bcif",
@@ -638,13 +645,29 @@ def run(ctx):
                        "bonds, or a hybrid-36 number beyond the decimal range (n >= 10^w)")
     d = tlc.scratch_dir("c07")
     # ---------------------------------------------------------------- S1 (three models, dumped)
-    hd = os.path.join(d, "h36")
-    rh = ctx.tlc("MCHybrid", f"MCHybrid{suf}.cfg", stage="S1-hybrid36", dump=hd, workers=8 if quick else 16,
-                 timeout=1500)
-    ad = os.path.join(d, "atom")
-    ra = ctx.tlc("MCAtom", f"MC{suf}.cfg", stage="S1-atom", dump=ad, workers=4, timeout=1500)
-    fd = os.path.join(d, "file")
-    rf = ctx.tlc("MCFile", f"MCFile{suf}.cfg", stage="S1-file", dump=fd, workers=4, timeout=1500)
+    # The three TLC runs and the recording of the S3 executions do not depend on each other:
+    # they run side by side (threads only wait for child processes).
+    from concurrent.futures import ThreadPoolExecutor
+
+    hd, ad, fd = os.path.join(d, "h36"), os.path.join(d, "atom"), os.path.join(d, "file")
+    nitems = 12 if quick else 160
+    per = 25 if quick else 90
+    s3items = [{"seed": ctx.rng.randrange(1 << 30), "count": per, "max_atoms": 12 if k % 4 else 60}
+               for k in range(nitems)]
+    import time
+
+    with ThreadPoolExecutor(max_workers=4) as ex:
+        # (tlc.scratch_dir names carry a millisecond stamp: start the runs a moment apart)
+        fh = ex.submit(ctx.tlc, "MCHybrid", f"MCHybrid{suf}.cfg", stage="S1-hybrid36", dump=hd,
+                       workers=6 if quick else 16, timeout=1500)
+        time.sleep(0.2)
+        fa = ex.submit(ctx.tlc, "MCAtom", f"MC{suf}.cfg", stage="S1-atom", dump=ad, workers=4, timeout=1500)
+        time.sleep(0.2)
+        ff = ex.submit(ctx.tlc, "MCFile", f"MCFile{suf}.cfg", stage="S1-file", dump=fd, workers=4, timeout=1500)
+        time.sleep(0.2)
+        f3 = ex.submit(helpers.run_pool, ctx, "harness.drivers.c07:record_cases", s3items, stage="S3",
+                       item_timeout=300, procs=6 if quick else 16)
+        rh, ra, rf, s3res = fh.result(), fa.result(), ff.result(), f3.result()
     ctx.exhaustive = True
 
     def dpath(p):
@@ -652,12 +675,11 @@ def run(ctx):
 
     # ---------------------------------------------------------------- S2 hybrid-36
     hcases = load_h36(dpath(hd))
+    hcases.sort(key=lambda c: (c[0], c[1], c[2]))
     if len(hcases) < 1000:
         raise Vacuity(f"hybrid-36 dump too small: {len(hcases)}")
     nnum = sum(1 for c in hcases if c[0] == "num")
     nblk = len(hcases) - nnum
-    if rh.distinct < len(hcases):
-        raise RuntimeError("hybrid-36 dump has more cases than states")
     block = 128
     items = [{"cases": ch, "block": block} for ch in _chunks(hcases, 400 if quick else 600)]
     res = helpers.run_pool(ctx, "harness.drivers.c07:exec_h36", items, stage="S2-hybrid36", item_timeout=120)
@@ -670,6 +692,8 @@ def run(ctx):
     ctx.cov["s2_h36_states"] = {"num": nnum, "blk": nblk}
     if not any((not c[3]) for c in hcases if c[0] == "num"):
         raise Vacuity("no refused hybrid-36 number was enumerated")
+    if nblk == 0 or nnum + nblk + hcases_grp[0] != rh.distinct:
+        raise Vacuity(f"hybrid-36 dump incomplete: {nnum} numbers, {nblk} blocks, {rh.distinct} states")
     ctx.sample({"s2_h36": [c for c in hcases if c[0] == "num" and c[3] and c[2] >= 10 ** c[1]][:2]})
     ctx.log(f"S2 hybrid-36: {nh} numbers executed ({nnum} single, {nblk} blocks)")
 
@@ -677,8 +701,11 @@ def run(ctx):
     cases = []
     for p in (dpath(ad), dpath(fd)):
         for st in load_states(p):
-            cases.append({"S": fix_S(st["inp"]), "exp": fix_exp(st["out"])})
-    if len(cases) != ra.distinct + rf.distinct:
+            if st["done"]:
+                cases.append({"S": fix_S(st["inp"]), "exp": fix_exp(st["out"])})
+    # TLC's workers write the dump in a run-dependent order: fix the order before anything is selected
+    cases.sort(key=lambda c: json.dumps(c["S"], sort_keys=True))
+    if 2 * len(cases) != ra.distinct + rf.distinct:
         raise RuntimeError(f"dump/state mismatch: {len(cases)} cases, {ra.distinct + rf.distinct} states")
     ocs = {}
     kbs = {}
@@ -720,11 +747,7 @@ def run(ctx):
     ctx.log(f"S2: {nexec} structures executed")
 
     # ---------------------------------------------------------------- S3 recorded executions
-    nitems = 16 if quick else 160
-    per = 30 if quick else 90
-    items = [{"seed": ctx.rng.randrange(1 << 30), "count": per, "max_atoms": 12 if k % 4 else 60}
-             for k in range(nitems)]
-    res = helpers.run_pool(ctx, "harness.drivers.c07:record_cases", items, stage="S3", item_timeout=300)
+    res = s3res
     traces = [r["events"] for r in res if r and r.get("events")]
     traces += _chunks(s2events, 40)
     validate(ctx, traces)
@@ -770,11 +793,29 @@ def validate(ctx, traces, selftest=False):
         return 0
     jt = [[_event_json(ev) for ev in tr] for tr in traces]
     nmm = 0
+    from harness.tlabind import tlc as T
+    from harness.tlabind.tlaval import parse_value, to_py
+
+    diag_names = ["line-kinds-differ", "bond-types-differ", "model-number-out-of-range-accepted"]
+    diags = {}
     # batches keep the JSON of one TLC run moderate
-    for batch_no, lo in enumerate(range(0, len(jt), 40)):
-        part = jt[lo:lo + 40]
-        mms = helpers.tlc_validate(ctx, part, selftest=selftest, timeout=1500,
-                                   stage="S3" if not selftest else "S3")
+    for batch_no, lo in enumerate(range(0, len(jt), 60)):
+        part = jt[lo:lo + 60]
+        dd = T.scratch_dir("c07tr")
+        tf = os.path.join(dd, "traces.json")
+        with open(tf, "w") as f:
+            json.dump(part, f)
+        res = ctx.tlc("Trace", "Trace.cfg", stage="S3-selftest" if selftest else "S3", workers=1,
+                      env={"TRACE_FILE": tf}, count=not selftest, timeout=1500)
+        expect = sum(len(t) + 1 for t in part)
+        if res.distinct != expect:
+            raise RuntimeError(f"C07 S3: trace validation visited {res.distinct} states, expected {expect}")
+        mms = [to_py(parse_value(x)) for x in T.printed_values(res.out, "MISMATCH")]
+        for x in T.printed_values(res.out, "DIAG"):
+            v = to_py(parse_value(x))
+            for nme, okf in zip(diag_names, v[3]):
+                if not okf:
+                    diags[nme] = diags.get(nme, 0) + 1
         nmm += len(mms)
         if selftest:
             continue
@@ -800,6 +841,9 @@ def validate(ctx, traces, selftest=False):
                 rec.update(kind=failed[0] if failed else "event", expected={"oc": eoc})
             ctx.mismatch(rec)
     if not selftest:
+        ctx.cov["s3_diagnostics"] = diags
+        for k, v in sorted(diags.items()):
+            ctx.note(f"diagnostic (not a verdict), recorded executions: {k} x{v}")
         nev = sum(len(t) for t in traces)
         nfile = sum(1 for t in traces for e in t if e["op"] == "file")
         ctx.traces_validated += len(traces)
@@ -821,31 +865,40 @@ def validate(ctx, traces, selftest=False):
     return nmm
 
 
+def _tlc_judge(events, spec="C07"):
+    """One TLC trace validation of freshly recorded events: returns the MISMATCH tuples."""
+    from harness.tlabind import tlc as T
+    from harness.tlabind.tlaval import parse_value, to_py
+
+    dd = T.scratch_dir("replay")
+    tf = os.path.join(dd, "traces.json")
+    with open(tf, "w") as f:
+        json.dump([[_event_json(ev) for ev in events]], f)
+    res = T.run_tlc(os.path.join(T.VERIF, "specs", spec), "Trace", "Trace.cfg", workers=1, timeout=600,
+                    env={"TRACE_FILE": tf})
+    T.require_ok(res, "replay")
+    return [to_py(parse_value(x)) for x in T.printed_values(res.out, "MISMATCH")]
+
+
 def replay(record):
-    """Re-execute one stored mismatch record against the current code."""
+    """Re-execute one stored mismatch record against the current code and let TLC judge it again."""
     warmup()
     if record.get("kind") == "h36":
-        r = run_h36(record["n"], record["w"])
-        exp = record.get("expected", {})
-        bad = any(k in exp and exp[k] != r.get(k) for k in ("oc", "s", "dec"))
-        return {"observed": r, "expected": exp, "mismatch": bad}
-    if "S" in record:
+        ev = run_h36(record["n"], record["w"])
+    elif "S" in record:
         ev = run_case(record["S"])
-        exp = record.get("expected", {})
-        out = {"observed": {"oc": ev["oc"], "lines": ev["lines"], "back": ev["back"]}, "expected": exp}
-        if record["kind"] == "write":
-            out["mismatch"] = ev["oc"] != exp.get("oc")
-        elif record["kind"] == "atomline" and exp.get("line") is not None:
-            oa = [x for x in ev["lines"] if is_atom_line(x)]
-            i = record.get("index", 0)
-            out["mismatch"] = i >= len(oa) or oa[i] != exp["line"]
-        elif record["kind"] == "readback":
-            out["mismatch"] = ev["back"] != record["observed"] or True
-        else:
-            out["mismatch"] = True
-            out["note"] = "re-executed; compare 'observed' with the stored record"
-        return out
-    return {"error": "record not replayable", "record": record}
+    else:
+        return {"error": "record not replayable", "record": record}
+    mms = _tlc_judge([ev])
+    out = {"observed": {k: ev[k] for k in ev if k not in ("S", "sel")}, "mismatch": bool(mms)}
+    if mms:
+        m = mms[0]
+        out["failed_flags"] = m[3]
+        out["known_bad_predicates"] = m[4]
+        out["expected_outcome"] = m[5]
+        if len(m) > 8 and m[8]:
+            out["expected_line"] = "".join(m[8])
+    return out
 
 
 MANIFEST = {
